@@ -150,6 +150,16 @@ def BState.attach (b : BState) (n : Node) : BState :=
     | none => { b with root := some n }
     | some _ => { b with error := some E.internal }
 
+/-- `if (current->type == WBXML_TREE_CDATA_NODE) current = current->parent`: the finished CDATA node
+    is attached to the element that owns it. -/
+def BState.leaveCdata (b : BState) : BState :=
+  match b.stack with
+  | f :: g :: rest =>
+    (match f.kind with
+     | .cdata => { b with stack := { g with kids := addKid g.kids f.close } :: rest }
+     | .elt _ _ => b)
+  | _ => b
+
 /-- One parser event through the WBXML tree-builder callbacks. `embedded` is the result of parsing
     a byte string as an embedded WBXML document (language not forced, outer charset as meta). -/
 def buildStep (main : List Lang) (embedded : Nat → Bytes → Option Tree) (b : BState) (e : Event) : BState :=
@@ -159,6 +169,9 @@ def buildStep (main : List Lang) (embedded : Nat → Bytes → Option Tree) (b :
   | .endDoc => b
   | .pi _ _ => b
   | .startElt n attrs =>
+    -- an element ends the CDATA section its parent's text was put in (`current` goes back to the
+    -- owner of the section first)
+    let b := b.leaveCdata
     match b.stack, b.root with
     | [], some _ => { b with error := some E.internal }   -- a second root is refused by add_node
     | _, _ => { b with stack := { kind := .elt n attrs, kids := [] } :: b.stack }
